@@ -1251,6 +1251,8 @@ int32_t jls_core_repair_fsr(struct jls_core_s * self, uint16_t signal_id) {
     int64_t offset_index_next = 0;
     int64_t offset = offsets[level];
     struct jls_core_chunk_s index_head;
+    const int64_t samples_per_data = signal_info->signal_def.samples_per_data;
+    int64_t sample_id_expect = INT64_MIN;  // sample id of the next data chunk, when known
 
     jls_core_fsr_summary_level_alloc(signal_info->track_fsr, level);
     struct jls_core_fsr_level_s * lvl = signal_info->track_fsr->level[level];
@@ -1297,6 +1299,13 @@ int32_t jls_core_repair_fsr(struct jls_core_s * self, uint16_t signal_id) {
             --level;
             if (r->header.entry_count > 0) {
                 offset = r->offsets[r->header.entry_count - 1];
+                if (0 == level) {
+                    // resume after this level 1 chunk, from its last stored (not omitted) block
+                    sample_id_expect = r->header.timestamp + r->header.entry_count * samples_per_data;
+                    for (uint32_t k = r->header.entry_count; (0 == offset) && (k > 0); --k) {
+                        offset = r->offsets[k - 1];
+                    }
+                }
                 lvl->index->header.entry_count = 0;
                 lvl->summary->header.entry_count = 0;
                 if (level > 0) {  // continue with the buffers of the lower level
@@ -1318,9 +1327,29 @@ int32_t jls_core_repair_fsr(struct jls_core_s * self, uint16_t signal_id) {
 
     // update level 0 (data)
     jls_core_fsr_sample_buffer_alloc(signal_info->track_fsr);
+    const size_t data_sz_max = sizeof(struct jls_payload_header_s)
+            + (jls_datatype_parse_size(signal_info->signal_def.data_type) * (size_t) samples_per_data) / 8;
     while (offset) {
         if (jls_raw_chunk_seek(self->raw, offset) || jls_core_rd_chunk(self)) {
             break;
+        }
+        if ((self->chunk_cur.hdr.tag != JLS_TAG_TRACK_FSR_DATA) || (self->chunk_cur.hdr.chunk_meta != signal_id)
+                || (self->buf->length < sizeof(struct jls_payload_header_s)) || (self->buf->length > data_sz_max)) {
+            JLS_LOGW("repair_fsr signal_id %d: unexpected chunk at %" PRIi64, (int) signal_id, offset);
+            break;
+        }
+        int64_t sample_id_chunk = ((struct jls_fsr_data_s *) self->buf->start)->header.timestamp;
+        if (!skip_summary) {
+            if ((sample_id_expect != INT64_MIN) && (sample_id_chunk != sample_id_expect)) {
+                // Blocks in between were omitted and their summary was never written:
+                // they cannot be recovered, so the signal ends here.
+                JLS_LOGW("repair_fsr signal_id %d: omitted blocks before %" PRIi64 " are lost, truncating",
+                         (int) signal_id, sample_id_chunk);
+                break;
+            }
+            sample_id_expect = sample_id_chunk + samples_per_data;
+        } else if (sample_id_expect == INT64_MIN) {
+            sample_id_expect = sample_id_chunk + samples_per_data;
         }
         memcpy(signal_info->track_fsr->data, self->buf->start, self->buf->length);
         JLS_LOGI("repair_fsr signal_id %d, level %d, offset %" PRIi64 " sample_id %" PRIi64 " to %" PRIi64 " data[0]=%f",
